@@ -84,7 +84,7 @@ fn na_convert(tok: Token, as_: PullAs) -> core::result::Result<u64, Error> {
                 for item in ChannelList::try_from(tok)?.take(300) {
                     match item {
                         Ok(cl::Token::ChannelSpec(s)) => {
-                            for d in s.into_iter().take(64) {
+                            for d in s.into_iter().take(100_000) {
                                 match d {
                                     Ok(v) => n = n.wrapping_add(v as u64),
                                     Err(_) => break,
